@@ -63,6 +63,10 @@ UNARY = {
     "block": lambda t: cat(("block", [], t), W("apply")),
     "fmtv": lambda t: ("par", ["A"], cat(("fmt", [("splice", cat(("rd", "A"), t))]), strval())),
     "fmtp": lambda t: ("par", ["A"], cat(("fmt", [b"x", ("splice", cat(("rd", "A"), t)), b"y"]), W("pos"), I(K), W("mod"), W("value"))),
+    # a multi-yield splice with a long literal and another splice to its right (the text right of a splice is kept
+    # across the alternatives of that splice)
+    "fmtlong": lambda t: ("par", ["A"], cat(("fmt", [b"<", ("splice", cat(("rd", "A"), t)), b"0123456789abcdefgh", ("splice", ("rd", "A")), b">"]),
+                                            W("length"), ("rd", "A"), W("add"), I(K), W("mod"))),
     "capbind": lambda t: cat(("cap", ["A"], cat(("rd", "A"), t)), W("elem")),
     "parens": lambda t: ("par", [], t),
 }
